@@ -7,7 +7,7 @@ TRUSTED_BASE = [
     "Rust std character classes (is_alphanumeric, is_whitespace) are sent by the harness with every character",
 ]
 
-EVAL_ASSUME = ['library hypotheses (modelled, not verified; compared with the real libraries by K7 on every run): var_pre/pre = one asynchronous step, FixedPoints::symbolic = dead ends of the unit, attractor computation = terminal SCCs, BDD and/exists/iff = point-wise definitions', 'the theorems are about the cache-free evaluator evalPure; the real eval_node (cache, counters, shortcuts) is tied to it by running both models and the implementation on the same inputs (requests `eval …` and `eval pure_…`)', 'formulae are preprocessed (variables named by nesting depth): hypothesis WellNamed/WellScoped of the theorems; K4 + C07 tie preprocessing to it']
+EVAL_ASSUME = ['library hypotheses (modelled, not verified; compared with the real libraries by K7 on every run): var_pre/pre = one asynchronous step, FixedPoints::symbolic = dead ends of the unit, attractor computation = terminal SCCs, BDD and/exists/iff = point-wise definitions', 'the theorems cover both the cache-free evaluator evalPure and the model of the real eval_node (cache, counters, shortcuts: evalNode_sound, formulaeDirty_correct, extendedDirty_correct); the models are tied to the implementation by running them on the same inputs (requests `eval …` and `eval pure_…`)', 'tree-level theorems take preprocessed formulae (variables named by nesting depth: hypothesis WellNamed/WellScoped, which C07 proves of every accepted input); the string-level theorems have no such hypothesis']
 
 PROPS = {
     "C05": {
@@ -41,7 +41,7 @@ PROPS = {
                 "non-empty token list",
         "assumptions": [
             "the parser model (HctlModel/Parser.lean) is the code's parser: checked by K2 on every run",
-            "the lexer model is the code's tokenizer: checked by K1 on every run (not proved against a lexical spec)",
+            "the lexer model is the code's tokenizer: checked by K1 on every run (and proved to meet the lexical specification Sp/Seg: lexer_meets_spec)",
         ],
     },
 
